@@ -9,6 +9,8 @@ def run(rep, fb, tier):
                      "that broadcasting in with_field yields 'value broadcast into the record structure' (a C04-style semantic statement)"]
     records.rule_project_wrap(rep, fb)
     records.rule_record_lookup(rep, fb)
+    from ..rules import canon
+    canon.rule_canon(rep, fb)
     records.rule_record_project_length(rep, fb)
     records.rule_regular_length(rep, fb)
     forward.rule_same_name(rep, fb, select=lambda f: f["name"] in ("getitem_field", "getitem_fields", "getitem_next", "getitem_next_jagged", "getitem_range", "getitem_range_nowrap", "carry", "setitem_field", "field", "fields", "key", "fieldindex", "haskey", "astuple"), floor=100)
